@@ -352,7 +352,18 @@ def parse_serde_shapes(srcs):
             shape = "repr"
         elif re.search(r"\bDeserialize\b", text):
             t = re.search(r'serde\s*\(\s*try_from\s*=\s*"([^"]*)"', text)
-            shape = ("try_from:" + re.sub(r"\s+", "", t.group(1))) if t else "derive"
+            if t:
+                ty = re.sub(r"\s+", "", t.group(1))
+                # a (private) type alias of the same file stands for its definition
+                for _ in range(4):
+                    al = re.search(r"\btype\s+%s\s*=\s*([^;]+);" % re.escape(ty), s)
+                    if not al:
+                        break
+                    ty = re.sub(r"\s+", "", al.group(1))
+                ty = re.sub(r"\b(?:crate|super|self)::", "", ty)
+                shape = "try_from:" + ty
+            else:
+                shape = "derive"
         shapes.append((name.replace("$name", "newtype"), shape))
     return shapes
 
